@@ -445,12 +445,13 @@ Qed.
 
 (* the crux: if the steps before delete_NP24 ran to the end and left
    check_completed set, every shank's ap data and metadata are complete *)
-Lemma body_checked_shanks_ok : forall n w o ow corrupt fs rs1,
-  exec (prep24 ow fs n ++ body24 n w o ow corrupt) (mkR fs false) = (rs1, None) ->
+Lemma body_checked_shanks_ok_gen : forall n w o ow corrupt fs ck rs1,
+  (o_post o = false -> ck = false) ->
+  exec (prep24 ow fs n ++ body24 n w o ow corrupt) (mkR fs ck) = (rs1, None) ->
   r_checked rs1 = true ->
   o_post o = true /\ shanks_ok n (r_fs rs1).
 Proof.
-  intros n w o ow corrupt fs rs1 H Hck.
+  intros n w o ow corrupt fs ck rs1 Hck0 H Hck.
   apply exec_app_ok in H as [rsP [HP H]].
   pose proof (exec_checked _ _ _ _ HP (no_verify_in _ (prep24_noverify _ _ _))) as HcP. cbn in HcP.
   unfold body24 in H.
@@ -462,7 +463,7 @@ Proof.
   destruct (writemeta_list_post _ _ _ _ HL) as [HLm [_ HLc]].
   assert (Hmeta : forall k, (k < n)%nat -> r_fs rsM (PFile (Shank k Ap) FMeta) = Complete).
   { intros k Hk. apply HLm. apply HAk. apply in_seq. lia. }
-  assert (HcM : r_checked rsM = false) by congruence.
+  assert (HcM : r_checked rsM = ck) by congruence.
   apply exec_app_ok in H as [rsV [HV HC]].
   destruct (o_post o) eqn:Epost.
   2:{ exfalso. cbn in HV. inversion HV; subst rsV.
@@ -470,7 +471,7 @@ Proof.
       { destruct (o_comp o).
         - eapply exec_checked; eauto. apply no_verify_in, comp24_noverify.
         - cbn in HC. inversion HC; reflexivity. }
-      congruence. }
+      rewrite (Hck0 eq_refl) in HcM. congruence. }
   split; [reflexivity|].
   (* the verification step succeeded on the state left by the (optional) adversary step *)
   assert (HVpost : (forall k, (k < n)%nat -> r_fs rsV (PFile (Shank k Ap) FBin) = Complete) /\
@@ -551,32 +552,40 @@ Proof. intros n fs f v H k Hk. unfold shank_ok. upd_simp. apply H; assumption. Q
 (* NP2.4: every state along a run; and if the run changed an Orig file at all,
    it did so in its final delete_NP24 step, with check_completed set by a
    successful verification of this very run and all shank outputs complete *)
-Lemma np24_prefix : forall n w o ow corrupt tf fs c rs',
+Lemma np24_prefix_gen : forall n w o ow corrupt tf fs ck c rs',
+  (o_post o = false -> ck = false) ->
   (tf = FBin \/ tf = FCbin) -> orig_ok fs -> inv NP24 n fs ->
-  exec (firstn c (plan24 n w o ow corrupt tf fs)) (mkR fs false) = (rs', None) ->
+  exec (firstn c (plan24 n w o ow corrupt tf fs)) (mkR fs ck) = (rs', None) ->
   inv NP24 n (r_fs rs') /\
   ((exists f, r_fs rs' (PFile Orig f) <> fs (PFile Orig f)) ->
      o_post o = true /\ o_del o = true /\ r_checked rs' = true /\ shanks_ok n (r_fs rs') /\
      (length (prep24 ow fs n ++ body24 n w o ow corrupt) < c)%nat /\
-     already24 ow fs n = false).
+     already24 ow fs n = false) /\
+  (forall f, f <> tf -> r_fs rs' (PFile Orig f) = fs (PFile Orig f)) /\
+  (r_fs rs' (PFile Orig tf) = fs (PFile Orig tf) \/ r_fs rs' (PFile Orig tf) = Absent).
 Proof.
-  intros n w o ow corrupt tf fs c rs' Htf Ho Hinv H. unfold plan24 in H.
+  intros n w o ow corrupt tf fs ck c rs' Hck0 Htf Ho Hinv H. unfold plan24 in H.
   destruct (already24 ow fs n) eqn:Eal.
   - assert (Hf : forall f, r_fs rs' (PFile Orig f) = fs (PFile Orig f)).
-    { intros f. eapply (shank_steps_frame_orig _ (mkR fs false)); eauto.
+    { intros f. eapply (shank_steps_frame_orig _ (mkR fs ck)); eauto.
       apply forallb_firstn, prep24_shape. }
-    split; [apply (frame_inv NP24 n fs); auto|]. intros [f Hne]. rewrite Hf in Hne. contradiction.
+    split; [apply (frame_inv NP24 n fs); auto|].
+    split; [intros [f Hne]; rewrite Hf in Hne; contradiction|].
+    split; [intros; apply Hf | left; apply Hf].
   - set (A := prep24 ow fs n ++ body24 n w o ow corrupt) in *.
     rewrite firstn_app in H. apply exec_app_ok in H as [rs1 [HA HD]].
     assert (Hf1 : forall f, r_fs rs1 (PFile Orig f) = fs (PFile Orig f)).
-    { intros f. eapply (shank_steps_frame_orig _ (mkR fs false)); eauto.
+    { intros f. eapply (shank_steps_frame_orig _ (mkR fs ck)); eauto.
       apply forallb_firstn, pre24_shape. }
     assert (Hsame : rs' = rs1 -> inv NP24 n (r_fs rs') /\
               ((exists f, r_fs rs' (PFile Orig f) <> fs (PFile Orig f)) ->
                o_post o = true /\ o_del o = true /\ r_checked rs' = true /\ shanks_ok n (r_fs rs') /\
-               (length A < c)%nat /\ false = false)).
+               (length A < c)%nat /\ false = false) /\
+              (forall f, f <> tf -> r_fs rs' (PFile Orig f) = fs (PFile Orig f)) /\
+              (r_fs rs' (PFile Orig tf) = fs (PFile Orig tf) \/ r_fs rs' (PFile Orig tf) = Absent)).
     { intros ->. split; [apply (frame_inv NP24 n fs); auto|].
-      intros [f Hne]. rewrite Hf1 in Hne. contradiction. }
+      split; [intros [f Hne]; rewrite Hf1 in Hne; contradiction|].
+      split; [intros; apply Hf1 | left; apply Hf1]. }
     unfold del24 in HD. destruct (o_del o) eqn:Edel.
     2:{ rewrite firstn_nil in HD. cbn in HD. inversion HD; subst. auto. }
     destruct (c - length A)%nat as [|m] eqn:Ec.
@@ -588,16 +597,32 @@ Proof.
     inversion HD; subst rs'; clear HD. cbn.
     assert (HcA : (length A < c)%nat) by lia.
     rewrite firstn_all2 in HA by lia.
-    destruct (body_checked_shanks_ok _ _ _ _ _ _ _ HA Eck) as [Hpost Hsh].
+    destruct (body_checked_shanks_ok_gen _ _ _ _ _ _ _ _ Hck0 HA Eck) as [Hpost Hsh].
     destruct Hinv as [Hm [Hb _]].
     assert (Hsh' : shanks_ok n (upd (r_fs rs1) (PFile Orig tf) Absent)) by (apply shanks_ok_upd_orig; exact Hsh).
-    split.
+    split; [|split; [|split]].
     + unfold inv. repeat split.
       * destruct Htf as [-> | ->]; upd_simp; rewrite Hf1; exact Hm.
       * destruct Htf as [-> | ->]; upd_simp; [discriminate | rewrite Hf1; exact Hb].
       * right. split; [reflexivity | exact Hsh'].
     + intros _. split; [exact Hpost|]. split; [reflexivity|]. split; [exact Eck|].
       split; [exact Hsh'|]. split; [exact HcA | reflexivity].
+    + intros f Hf. rewrite upd_other by congruence. apply Hf1.
+    + right. apply upd_same.
+Qed.
+
+Lemma np24_prefix : forall n w o ow corrupt tf fs c rs',
+  (tf = FBin \/ tf = FCbin) -> orig_ok fs -> inv NP24 n fs ->
+  exec (firstn c (plan24 n w o ow corrupt tf fs)) (mkR fs false) = (rs', None) ->
+  inv NP24 n (r_fs rs') /\
+  ((exists f, r_fs rs' (PFile Orig f) <> fs (PFile Orig f)) ->
+     o_post o = true /\ o_del o = true /\ r_checked rs' = true /\ shanks_ok n (r_fs rs') /\
+     (length (prep24 ow fs n ++ body24 n w o ow corrupt) < c)%nat /\
+     already24 ow fs n = false).
+Proof.
+  intros n w o ow corrupt tf fs c rs' Htf Ho Hinv H.
+  destruct (np24_prefix_gen n w o ow corrupt tf fs false c rs' (fun _ => eq_refl) Htf Ho Hinv H) as [A [B _]].
+  split; assumption.
 Qed.
 
 (* NP2.1 *)
@@ -1274,4 +1299,168 @@ Proof.
   rewrite Hal.
   destruct (go_full _ fs 1%Z 0%Z rs' Hx) as [G1 [G2 G3]].
   destruct Ht as [-> | ->]; cbn [target_form] in *; rewrite G1, G2; auto.
+Qed.
+
+(* ====================================================================== *)
+(* Several method calls on ONE converter object                              *)
+(* ====================================================================== *)
+Lemma exec_executed : forall l rs rs' e,
+  exec l rs = (rs', e) -> exec (firstn (nexec l rs) l) rs = (rs', None).
+Proof.
+  induction l as [|s l IH]; intros rs rs' e H.
+  - cbn in *. inversion H; reflexivity.
+  - cbn [exec nexec] in *. destruct (step_sem s rs) as [rs1|e1] eqn:E.
+    + cbn [firstn exec]. rewrite E. eapply IH; eauto.
+    + inversion H; subst. reflexivity.
+Qed.
+
+Lemma obj_call_exec : forall kd n w ob fs c ob' o,
+  obj_call kd n w ob fs c = (ob', o) ->
+  exec (out_trace o) (mkR fs (ob_checked ob)) = (mkR (out_fs o) (ob_checked ob'), None).
+Proof.
+  intros kd n w ob fs c ob' o H. unfold obj_call in H.
+  destruct (call_plan kd n w ob fs c) as [[[plan st] al]|].
+  - cbv zeta in H.
+    destruct (exec (match call_crash c with Some k => firstn k plan | None => plan end)
+                   (mkR fs (ob_checked ob))) as [rs' e] eqn:E.
+    inversion H; subst; cbn [out_trace out_fs ob_checked].
+    rewrite (exec_executed _ _ _ _ E). destruct rs'; reflexivity.
+  - inversion H; subst. reflexivity.
+Qed.
+
+Lemma obj_steps_exec : forall kd n w cs ob fs,
+  exec (obj_steps kd n w ob fs cs) (mkR fs (ob_checked ob)) =
+  (mkR (snd (obj_after kd n w ob fs cs)) (ob_checked (fst (obj_after kd n w ob fs cs))), None).
+Proof.
+  intros kd n w. induction cs as [|c cs IH]; intros ob fs; cbn [obj_steps obj_after].
+  - reflexivity.
+  - destruct (obj_call kd n w ob fs c) as [ob' o] eqn:E.
+    rewrite exec_app, (obj_call_exec _ _ _ _ _ _ _ _ E). apply IH.
+Qed.
+
+(* check_completed true  ==>  some check_NP24 step executed by this object found every shank
+   ap.bin complete.  (Not: the LAST one — see the _refuted theorems.) *)
+Lemma object_check_completed_sound : forall kd n w cs ob fs,
+  ob_checked ob = false -> ob_checked (fst (obj_after kd n w ob fs cs)) = true ->
+  exists l1 m l2 rsv, obj_steps kd n w ob fs cs = l1 ++ SVerify m :: l2 /\
+    exec l1 (mkR fs false) = (rsv, None) /\
+    forall k, (k < m)%nat -> r_fs rsv (PFile (Shank k Ap) FBin) = Complete.
+Proof.
+  intros kd n w cs ob fs Hc H. pose proof (obj_steps_exec kd n w cs ob fs) as E. rewrite Hc in E.
+  exact (check_completed_sound (obj_steps kd n w ob fs cs) (mkR fs false) _ eq_refl E H).
+Qed.
+
+(* --- sequences of process() calls with fixed options ----------------------------- *)
+Definition objJ (n : nat) (ob : obj) (fs : fsys) : Prop :=
+  (o_post (ob_opts ob) = false -> ob_checked ob = false) /\
+  (ob_tf ob = FBin \/ ob_tf ob = FCbin) /\
+  (ob_closed ob = false -> inv NP24 n fs /\ orig_ok fs /\ fs (PFile Orig (ob_tf ob)) <> Absent).
+
+Lemma metas24_noverify : forall n, forallb (fun s => negb (is_verify s)) (metas24 n) = true.
+Proof.
+  intros. unfold metas24. rewrite forallb_app. apply andb_true_iff. split; apply forallb_flat_map; reflexivity.
+Qed.
+
+Lemma plan24_noverify : forall n w o ow corrupt tf fs,
+  o_post o = false -> forallb (fun s => negb (is_verify s)) (plan24 n w o ow corrupt tf fs) = true.
+Proof.
+  intros n w o ow corrupt tf fs Hp. unfold plan24. destruct (already24 ow fs n); [apply prep24_noverify|].
+  unfold body24, del24. rewrite Hp. repeat rewrite forallb_app.
+  rewrite prep24_noverify, wins24_noverify, metas24_noverify. cbn [forallb andb].
+  destruct (o_comp o); [rewrite comp24_noverify|]; destruct (o_del o); reflexivity.
+Qed.
+
+Lemma obj_process_step : forall n w ob fs ow cr cp ob' o,
+  objJ n ob fs -> obj_call NP24 n w ob fs (CProcess ow cr cp) = (ob', o) ->
+  objJ n ob' (out_fs o) /\ (ob_closed ob = false -> inv NP24 n (out_fs o)).
+Proof.
+  intros n w ob fs ow cr cp ob' o [Jc [Jtf Jo]] H. unfold obj_call in H. cbn [call_plan call_crash] in H.
+  cbv zeta in H.
+  match type of H with context [exec ?pl0 _] => set (pl := pl0) in * end.
+  destruct (exec pl (mkR fs (ob_checked ob))) as [rs' e] eqn:E.
+  inversion H; subst ob' o; clear H. cbn [out_fs ob_opts ob_checked ob_tf ob_closed].
+  destruct (exec_prefix _ _ _ _ E) as [c0 [_ Hx]].
+  destruct (ob_closed ob) eqn:Ecl.
+  - (* the object has closed its reader: nothing is promised about the files, only about the flag *)
+    split; [|discriminate]. unfold objJ. cbn [ob_opts ob_checked ob_tf ob_closed orb].
+    split; [|split; [exact Jtf | discriminate]].
+    intros Hp. rewrite <- (Jc Hp). change (r_checked rs' = r_checked (mkR fs (ob_checked ob))).
+    eapply exec_checked; [exact Hx|].
+    intros s Hs. apply In_firstn in Hs.
+    assert (Hin : In s (prep24 ow fs n ++ [SFail (ob_tf ob)])).
+    { subst pl. destruct cr as [k|]; [apply In_firstn in Hs|];
+        destruct (already24 ow fs n); auto; apply in_or_app; left; exact Hs. }
+    apply in_app_or in Hin as [Hin|[<-|[]]]; [|reflexivity].
+    apply (no_verify_in _ (prep24_noverify ow fs n)). exact Hin.
+  - destruct (Jo eq_refl) as [Hinv [Hok Hpr]].
+    assert (Hx' : exists c1, exec (firstn c1 (plan24 n w (ob_opts ob) ow cp (ob_tf ob) fs)) (mkR fs (ob_checked ob))
+                             = (rs', None)).
+    { subst pl. destruct cr as [k|]; [rewrite firstn_firstn in Hx|]; eauto. }
+    destruct Hx' as [c1 Hx1].
+    destruct (np24_prefix_gen _ _ _ _ _ _ _ _ _ _ Jc Jtf Hok Hinv Hx1) as [Hinv' [_ [Hoth Htfc]]].
+    split; [|intros _; exact Hinv'].
+    unfold objJ. cbn [ob_opts ob_checked ob_tf ob_closed orb].
+    split; [|split; [exact Jtf|]].
+    + intros Hp. rewrite <- (Jc Hp). change (r_checked rs' = r_checked (mkR fs (ob_checked ob))).
+      eapply exec_checked; [exact Hx1|].
+      intros s Hs. apply In_firstn in Hs.
+      apply (no_verify_in _ (plan24_noverify n w (ob_opts ob) ow cp (ob_tf ob) fs Hp)). exact Hs.
+    + intros Hcl'. apply andb_false_iff in Hcl'.
+      assert (Hp' : r_fs rs' (PFile Orig (ob_tf ob)) <> Absent).
+      { destruct Hcl' as [Hc|Hc].
+        - apply present_false in Hc. contradiction.
+        - apply negb_false_iff in Hc. apply present_true in Hc. exact Hc. }
+      assert (Hsame : forall f, r_fs rs' (PFile Orig f) = fs (PFile Orig f)).
+      { intros f. destruct (fkind_eqb f (ob_tf ob)) eqn:Ef.
+        - apply fkind_eqb_eq in Ef. subst f. destruct Htfc as [Heq|Ha]; [exact Heq | contradiction].
+        - apply Hoth. intros ->. rewrite (proj2 (fkind_eqb_eq _ _) eq_refl) in Ef. discriminate. }
+      destruct (frame_inv NP24 n fs (r_fs rs') Hsame Hok Hinv) as [Hok' _].
+      split; [exact Hinv'|]. split; [exact Hok'|]. exact Hp'.
+Qed.
+
+Definition is_process (c : call) : bool := match c with CProcess _ _ _ => true | _ => false end.
+
+Lemma obj_seq_J : forall n w cs ob fs,
+  forallb is_process cs = true -> objJ n ob fs ->
+  objJ n (fst (obj_after NP24 n w ob fs cs)) (snd (obj_after NP24 n w ob fs cs)).
+Proof.
+  intros n w. induction cs as [|c cs IH]; intros ob fs Hall HJ; cbn [obj_after]; [exact HJ|].
+  cbn in Hall. apply andb_true_iff in Hall as [Hc Hall]. destruct c; try discriminate.
+  destruct (obj_call NP24 n w ob fs (CProcess ow crash corrupt)) as [ob' o] eqn:E.
+  apply IH; [exact Hall|]. exact (proj1 (obj_process_step _ _ _ _ _ _ _ _ _ HJ E)).
+Qed.
+
+Lemma obj_after_app : forall kd n w cs1 cs2 ob fs,
+  obj_after kd n w ob fs (cs1 ++ cs2) =
+  obj_after kd n w (fst (obj_after kd n w ob fs cs1)) (snd (obj_after kd n w ob fs cs1)) cs2.
+Proof.
+  intros kd n w. induction cs1 as [|c cs1 IH]; intros cs2 ob fs; cbn [app obj_after]; [reflexivity|].
+  destruct (obj_call kd n w ob fs c) as [ob' o]. apply IH.
+Qed.
+
+(* any number of process() calls (any overwrite flag, interrupted anywhere, with or without a
+   damaged shank file) on one object with fixed options: every call made while the object has not
+   yet deleted the original leaves the original recoverable *)
+Lemma object_process_sequences_safe : forall n w cs ow cr cp ob fs,
+  forallb is_process cs = true -> objJ n ob fs ->
+  ob_closed (fst (obj_after NP24 n w ob fs cs)) = false ->
+  inv NP24 n (snd (obj_after NP24 n w ob fs (cs ++ [CProcess ow cr cp]))).
+Proof.
+  intros n w cs ow cr cp ob fs Hall HJ Hcl. rewrite obj_after_app.
+  pose proof (obj_seq_J n w cs ob fs Hall HJ) as HJ1.
+  set (ob1 := fst (obj_after NP24 n w ob fs cs)) in *. set (fs1 := snd (obj_after NP24 n w ob fs cs)) in *.
+  cbn [obj_after]. destruct (obj_call NP24 n w ob1 fs1 (CProcess ow cr cp)) as [ob' o] eqn:E. cbn [snd].
+  exact (proj2 (obj_process_step _ _ _ _ _ _ _ _ _ HJ1 E) Hcl).
+Qed.
+
+Lemma new_obj_J : forall n fs o (c : bool),
+  inv NP24 n fs -> input_state NP24 n fs (if c then TCbin else TBin) = Present ->
+  objJ n (new_obj o c) fs.
+Proof.
+  intros n fs o c Hinv Hin. destruct (input_present_orig _ _ _ _ Hin) as [_ [HB HC]].
+  unfold objJ, new_obj. cbn [ob_opts ob_checked ob_tf ob_closed].
+  split; [reflexivity|]. split; [destruct c; auto|]. intros _. split; [exact Hinv|].
+  destruct c.
+  - destruct (HC eq_refl) as [A B]. split; [right; auto | rewrite A; discriminate].
+  - split; [left; auto | rewrite (HB eq_refl); discriminate].
 Qed.
